@@ -55,6 +55,26 @@ pub const SELS: &[&str] = &[
     "span",
 ];
 
+/// Procedural selectors (only parsed as such with the `css-validation` feature) with the operator
+/// list the engine must emit for them.
+pub const PROCEDURAL: &[(&str, &[(&str, &str)])] = &[
+    (".x:has-text(y)", &[("css-selector", ".x"), ("has-text", "y")]),
+    (".c1:upward(2)", &[("css-selector", ".c1"), ("upward", "2")]),
+    ("div:matches-css(color: red) > .z", &[("css-selector", "div"), ("matches-css", "color: red"), ("css-selector", " > .z")]),
+    (".q:min-text-length(5)", &[("css-selector", ".q"), ("min-text-length", "5")]),
+    (":xpath(//div)", &[("xpath", "//div")]),
+    (".m:matches-path(/p)", &[("css-selector", ".m"), ("matches-path", "/p")]),
+    (".a:has-text(/re/i)", &[("css-selector", ".a"), ("has-text", "/re/i")]),
+];
+
+#[cfg(feature = "css")]
+pub const SELS_ALL: &[&str] = &[
+    ".ad", ".ad2", "#ban", ".ad > div", "#ban .x", "div[ad]", "a[href^=\"x\"]", ".c1", ".c1.c2", "#ban:not(.y)", ".ad-box, .ad-top", "span",
+    ".x:has-text(y)", ".c1:upward(2)", "div:matches-css(color: red) > .z", ".q:min-text-length(5)", ":xpath(//div)", ".m:matches-path(/p)", ".a:has-text(/re/i)",
+];
+#[cfg(not(feature = "css"))]
+pub const SELS_ALL: &[&str] = SELS;
+
 pub const SCRIPTS: &[&str] = &["s0", "s1, a", "s1, b", "s2, x, y", "tmpl, v", "missing, q"];
 
 #[derive(Clone, Debug, PartialEq, Eq)]
@@ -125,7 +145,7 @@ pub fn gen_cos_rule(r: &mut Rng, sels: &[&'static str], allow_script: bool) -> C
 
 pub fn gen_cos_list(r: &mut Rng, max: usize, allow_script: bool) -> Vec<CosRule> {
     let n = 1 + r.below(max);
-    let mut v: Vec<CosRule> = (0..n).map(|_| gen_cos_rule(r, SELS, allow_script)).collect();
+    let mut v: Vec<CosRule> = (0..n).map(|_| gen_cos_rule(r, SELS_ALL, allow_script)).collect();
     if allow_script && r.chance(1, 8) {
         // blanket scriptlet exception
         let loc = r.ps(LOCS);
